@@ -393,6 +393,21 @@ def plan_growth(pid, tier, seed):
                          "0..2w and u32::MAX, count_ones/zeros, leading/trailing_zeros, rotate_left/right, is_power_of_two / "
                          "next_power_of_two / checked_next_power_of_two, judged on the two's complement pattern (tla/sem/SemBits.tla)",
                     assumptions=["not one of the 18 listed properties"])
+    if pid == "G03":
+        topics = ["cmpf,f2x,x2f", "f2xall", "x2fall", "az", "static"]
+        per = {"cmpf,f2x,x2f": 3000, "f2xall": 25000, "x2fall": 25000, "az": 2500, "static": 2000}
+        gens = [dict(name="opt_" + t.split(",")[0], profile="unchecked", bin="harness_opt/opt", dom="big", per_shard=per[t],
+                     args=["--topic", t, "--tier", tier, "--seed", str(seed)]) for t in topics]
+        return dict(bins=["opt"], crate="harness_opt", profiles=["unchecked"], gens=gens, designs=[], growth=True,
+                    nontrivial=lambda line: '"a":[0],' not in line and '"fb":[0],' not in line,
+                    rule="growth: the crate's optional features.  f16: EVERY half::f16 and half::bf16 bit pattern converted into 6 (thorough 22) "
+                         "layouts in all ten from_num / to_fixed forms, EVERY value of every 8-bit layout and of four (thorough: 22) 16-bit "
+                         "layouts converted to both formats, sampled conversions / comparisons for 36 layouts of every width, judged by "
+                         "the same FloatToFixR / FixToFloatBits / CmpFloat as C03 / C05 with the format parameters of binary16 and bfloat16.  "
+                         "az: Cast / CheckedCast / SaturatingCast / WrappingCast / OverflowingCast (trait methods and the az free functions) "
+                         "between fixed types, integers and the four float types judged as the to_num family; StaticCast: Some carries the "
+                         "converted value and is given only for layout pairs where no source value can overflow",
+                    assumptions=["not one of the 18 listed properties", "the half crate's from_bits / to_bits are trusted"])
     gens = [dict(name="consts", profile="unchecked", bin="math", dom="big", per_shard=100, args=["--topic", "consts"])]
     return dict(bins=["math"], profiles=["unchecked"], gens=gens, designs=[], growth=True, nontrivial=lambda line: True,
                 rule="growth: each of the 28 constants of src/consts.rs lies within one unit in the last place of its reference value "
@@ -403,6 +418,7 @@ def plan_growth(pid, tier, seed):
 PLANS = {
     "G01": lambda t, s: plan_growth("G01", t, s),
     "G02": lambda t, s: plan_growth("G02", t, s),
+    "G03": lambda t, s: plan_growth("G03", t, s),
     "C12": lambda t, s: plan_math("C12", t, s),
     "C13": lambda t, s: plan_math("C13", t, s),
     "C14": lambda t, s: plan_math("C14", t, s),
@@ -481,7 +497,7 @@ def run_check(pid, tier, seed, replay=None):
     known = [k for k in known if k.get("property") == pid]
     known_devs = {k["deviation"]: k for k in known}
 
-    tb = core.build(plan["bins"], plan["profiles"])
+    tb = core.build(plan["bins"], plan["profiles"], crate=plan.get("crate"))
     log("[%s] harness built in %.0fs" % (pid, tb))
 
     # ---- design models (layer A vs layer M, exhaustive at small widths / symbolic)
@@ -541,7 +557,7 @@ def run_check(pid, tier, seed, replay=None):
             violations.append(dict(kind="event", event=r["event"], dev=r["dev"], note=r["note"], program=r.get("program")))
     for dev, rs in kf_seen.items():
         k = known_devs[dev]
-        log("KNOWN-FINDING: property=%s %s [%d events explained bit-for-bit by deviation %s; e.g. %s]"
+        log("KNOWN-FINDING: property=%s %s [%d events explained by the named deviation %s; e.g. %s]"
             % (pid, k["what"], len(rs), dev, describe(rs[0]["event"])))
     nviol = len(violations)
     if violations:
